@@ -144,8 +144,15 @@ func c05Der(c *Ctx, tag string, der []byte) {
 
 func c05Sniff(c *Ctx, tag string, data []byte) {
 	n := int64(len(data))
-	c.Emit("sniff:"+tag, SL{SB(data)}, guard(func() Sx {
-		return SL{Bool(file.IsASN1("", data, n)), Bool(file.IsBase64ASN1("", data, n)), Bool(file.IsMixedPEM("", data, n))}
+	// the UUID sniffer stays an oracle: its verdict travels in the input and the model answers
+	// whether the necessary condition it assumes of that sniffer (uuid_possible) covers the verdict
+	isUUID := false
+	func() {
+		defer func() { _ = recover() }()
+		isUUID = file.IsUUID("", data, n)
+	}()
+	c.Emit("sniff:"+tag, SL{SB(data), Bool(isUUID)}, guard(func() Sx {
+		return SL{Bool(file.IsASN1("", data, n)), Bool(file.IsBase64ASN1("", data, n)), Bool(file.IsMixedPEM("", data, n)), I(1)}
 	}))
 }
 
@@ -986,7 +993,10 @@ func genC05(c *Ctx) {
 		}
 	}
 
-	// 4. sniffers on text that is simultaneously one BER TLV (application class, primitive)
+	// 4. the UUID sniffer against the necessary condition the routing lemmas assume of it
+	uuidForms(c)
+
+	// 5. sniffers on text that is simultaneously one BER TLV (application class, primitive)
 	for n := 0; n < 130; n += 1 {
 		s := make([]byte, n)
 		for i := range s {
@@ -999,6 +1009,55 @@ func genC05(c *Ctx) {
 			}
 		}
 		c05Sniff(c, "tlv-text", s)
+	}
+}
+
+// uuidForms: every accepted spelling of a UUID, with the white space TrimSpace removes, and near misses
+func uuidForms(c *Ctx) {
+	r := c.R
+	n := 60
+	if c.Thorough() {
+		n = 2000
+	}
+	spaces := []string{"", " ", "\n", "\r\n", "\t", "\v\f", "\u0085", "\u00a0", "\u2003", "\u3000", "\u1680 ", " \u2028\u2029", "\u202f\u205f"}
+	notSpaces := []string{"\x85", "\xa0", "\u200b", "\ufeff", "x", "\x00", "\xc2"}
+	for i := 0; i < n; i++ {
+		b := r.Bytes(16)
+		h := fmt.Sprintf("%x", b)
+		if r.Bool() {
+			h = strings.ToUpper(h)
+		}
+		canon := h[0:8] + "-" + h[8:12] + "-" + h[12:16] + "-" + h[16:20] + "-" + h[20:32]
+		var core string
+		switch r.Intn(8) {
+		case 0:
+			core = h
+		case 1:
+			core = canon
+		case 2:
+			core = "{" + canon + "}"
+		case 3:
+			core = []string{"urn:uuid:", "URN:UUID:", "Urn:Uuid:", "uRN:uUID:"}[r.Intn(4)] + canon
+		case 4: // any bytes in the brace positions are accepted (F20)
+			core = string([]byte{byte(r.U64())}) + canon + string([]byte{byte(r.U64())})
+		case 5: // near miss: wrong length
+			core = canon[:len(canon)-1-r.Intn(3)]
+		case 6: // near miss: one non-hex character
+			x := []byte(canon)
+			x[r.Intn(len(x))] = "gG-:xZ "[r.Intn(7)]
+			core = string(x)
+		default: // near miss: wrong urn prefix
+			core = "urn:uuix:" + canon
+		}
+		pre := spaces[r.Intn(len(spaces))]
+		post := spaces[r.Intn(len(spaces))]
+		if r.Intn(6) == 0 {
+			pre = notSpaces[r.Intn(len(notSpaces))] + pre
+		}
+		if r.Intn(6) == 0 {
+			post += notSpaces[r.Intn(len(notSpaces))]
+		}
+		c05Sniff(c, "uuid-forms", []byte(pre+core+post))
 	}
 }
 
